@@ -16,7 +16,8 @@
     hashes its leaves, so they cannot be symbolic): for all values of every nested list/dict shape in the bound
     `hash(make_hashable(a))` succeeds and for ALL pairs of values of the same shape
     `a == b  <=>  make_hashable(a) == make_hashable(b)` (decided exactly by grouping the values by their image;
-    additionally literally pair by pair for the smaller shapes).  Equality is only required between values built from
+    additionally literally pair by pair for the smaller shapes); equal dicts built in a different insertion order of their
+    keys (reversed / rotated, at every nesting level) must map to equal, equally hashed images as well.  Equality is only required between values built from
     the same container types (`[1, 2]` and `(1, 2)` legitimately collapse).
 """
 import copy
@@ -451,6 +452,34 @@ def _same_types(a, b):
     return True
 
 
+def _reorder(v, mode):
+    """structural copy of v with the insertion order of every dict reversed (mode 'rev') or rotated by one (mode 'rot')."""
+    if isinstance(v, list):
+        return [_reorder(x, mode) for x in v]
+    if isinstance(v, dict):
+        items = [(k_, _reorder(x, mode)) for k_, x in v.items()]
+        items = items[::-1] if mode == "rev" else items[1:] + items[:1]
+        return dict(items)
+    return v
+
+
+def _reorderings(v):
+    out = []
+    for mode in ("rev", "rot"):
+        r = _reorder(v, mode)
+        if _order_sig(r) != _order_sig(v) and all(_order_sig(r) != _order_sig(x) for x in out):
+            out.append(r)
+    return out
+
+
+def _order_sig(v):
+    if isinstance(v, list):
+        return ("l", tuple(_order_sig(x) for x in v))
+    if isinstance(v, dict):
+        return ("d", tuple((k_, _order_sig(x)) for k_, x in v.items()))
+    return v
+
+
 def _check_values(ctx, D, label, vals, pairwise_limit):
     """vals: list of values (same shape, or same container types).  Decides a == b <=> mh(a) == mh(b) for ALL pairs."""
     note = lambda key, n=1: ctx.notes.__setitem__(key, ctx.notes.get(key, 0) + n)
@@ -473,6 +502,14 @@ def _check_values(ctx, D, label, vals, pairwise_limit):
         if not (a == b and mh(b) == ma and hash(mh(b)) == hash(ma)):
             ctx.violation(f"equal values have equal (and equally hashed) images: {label}", f"a = b = {a!r}: {ma!r} vs {mh(b)!r}", "re-executed concretely")
             return False
+        # ... and dicts that differ only in the insertion order of their keys (at any level) are equal values, too
+        for r in _reorderings(a):
+            mr = mh(r)
+            if not (a == r and mr == ma and hash(mr) == hash(ma)):
+                ctx.violation(f"equal dicts built in a different key order have equal (and equally hashed) images: {label}",
+                              f"a = {a!r}, b = {r!r} (a == b is {a == r}): {ma!r} vs {mr!r}", "re-executed concretely")
+                return False
+            note("hashable_reordered_equal_values", 1)
         imgs.append(ma)
         buckets.setdefault(ma, []).append(a)
     note("hashable_values_enumerated", len(vals))
